@@ -26,6 +26,7 @@ import (
 	"math/big"
 	"os"
 	"runtime"
+	"runtime/debug"
 	"sort"
 	"strings"
 	"sync"
@@ -734,18 +735,63 @@ func judgeQual(r *mon.Run, c Case, ok bool, qn uint64, value *big.Int) {
 	}
 }
 
-// runQual executes one qualification probe twice (determinism) and judges it.
-func runQual(r *mon.Run, c Case) {
-	r.Guard("C16:validateProve", c, func() {
-		ok1, q1 := logical.VerifValidateProve(vrf.VRFProve(append([]byte{}, c.Proof...)), c.Height, c.WorkingMiners, c.TotalStake)
-		ok2, q2 := logical.VerifValidateProve(vrf.VRFProve(append([]byte{}, c.Proof...)), c.Height, c.WorkingMiners, c.TotalStake)
-		r.Count("validateProve_calls", 2)
-		if ok1 != ok2 || q1 != q2 {
-			r.Violation("C16:qn:nondeterministic", fmt.Sprintf("validateProve gave (%v,%d) then (%v,%d) for the same arguments", ok1, q1, ok2, q2), c)
+type qualPanic struct {
+	c     Case
+	msg   string
+	stack string
+}
+
+var qualPanics []qualPanic
+
+// flushQualPanics emits the collected validateProve panics smallest configuration first.
+func flushQualPanics(r *mon.Run) {
+	qualMu.Lock()
+	ps := qualPanics
+	qualPanics = nil
+	qualMu.Unlock()
+	sort.Slice(ps, func(i, j int) bool {
+		a, b := ps[i].c, ps[j].c
+		if a.TotalStake != b.TotalStake {
+			return a.TotalStake < b.TotalStake
 		}
-		value := new(big.Int).SetBytes(pad80(c.Proof)[:32])
-		judgeQual(r, c, ok1, q1, value)
+		if a.WorkingMiners != b.WorkingMiners {
+			return a.WorkingMiners < b.WorkingMiners
+		}
+		if a.Height != b.Height {
+			return a.Height < b.Height
+		}
+		return bytes.Compare(a.Proof, b.Proof) < 0
 	})
+	for _, p := range ps {
+		st := p.stack
+		if len(st) > 3000 {
+			st = st[:3000]
+		}
+		r.Violation("C16:validateProve:panic:"+mon.PanicSite(p.stack), fmt.Sprintf("validateProve(height=%d, workingMiners=%d, totalStake=%d) panics: %s", p.c.Height, p.c.WorkingMiners, p.c.TotalStake, p.msg),
+			map[string]interface{}{"case": p.c, "panic": p.msg, "stack": st})
+	}
+}
+
+// runQual executes one qualification probe twice (determinism) and judges it.
+// Panics are collected (not reported through Guard) so that the recorded
+// witnesses do not depend on the order in which the workers ran.
+func runQual(r *mon.Run, c Case) {
+	defer func() {
+		if e := recover(); e != nil {
+			r.Count("validateProve_panics", 1)
+			qualMu.Lock()
+			qualPanics = append(qualPanics, qualPanic{c: c, msg: fmt.Sprint(e), stack: string(debug.Stack())})
+			qualMu.Unlock()
+		}
+	}()
+	ok1, q1 := logical.VerifValidateProve(vrf.VRFProve(append([]byte{}, c.Proof...)), c.Height, c.WorkingMiners, c.TotalStake)
+	ok2, q2 := logical.VerifValidateProve(vrf.VRFProve(append([]byte{}, c.Proof...)), c.Height, c.WorkingMiners, c.TotalStake)
+	r.Count("validateProve_calls", 2)
+	if ok1 != ok2 || q1 != q2 {
+		r.Violation("C16:qn:nondeterministic", fmt.Sprintf("validateProve gave (%v,%d) then (%v,%d) for the same arguments", ok1, q1, ok2, q2), c)
+	}
+	value := new(big.Int).SetBytes(pad80(c.Proof)[:32])
+	judgeQual(r, c, ok1, q1, value)
 }
 
 func proofWithValue(v *big.Int, tail []byte) []byte {
@@ -928,6 +974,7 @@ func replay(r *mon.Run, path string) {
 		os.Exit(2)
 	}
 	flushAboveMax(r)
+	flushQualPanics(r)
 	cleanup()
 	r.Finish(mon.Coverage{Evaluations: 2, DistinctNontrivial: 2, Rule: "replay of one recorded case"})
 }
@@ -1127,6 +1174,7 @@ func main() {
 	})
 	phase("C qualification")
 	flushAboveMax(r)
+	flushQualPanics(r)
 
 	// samples
 	if len(pairs) > 0 {
